@@ -1,0 +1,13 @@
+//go:build verif
+
+package main
+
+import (
+	"go/ast"
+	"go/parser"
+	"go/token"
+)
+
+func parseForVerif(fset *token.FileSet, src string) (*ast.File, error) {
+	return parser.ParseFile(fset, "x.go", src, parser.ParseComments)
+}
